@@ -28,7 +28,7 @@ def gen_items(rng, depth=0, maxlen=4):
         elif r < 0.45:
             items.append(["read"])
         elif r < 0.6:
-            items.append(["arith", rng.choice(["array", "negative", "negative_nan", "array_mul"])])
+            items.append(["arith", rng.choice(["array", "negative", "negative_nan", "array_mul", "array_div", "array_sub", "negative_factor"])])
         elif depth < 3:
             body = gen_items(rng, depth + 1, maxlen=3)
             items.append(["with", rng.random() < 0.6, body, rng.random() < 0.35])   # value, body, body raises at its end
@@ -97,6 +97,17 @@ def do_arith(how):
             elif how == "array_mul":
                 h = Histogram1D([0, 1, 2], [1, 2])
                 h *= [2, 3]
+            elif how == "array_div":
+                h = Histogram1D([0, 1, 2], [1, 2])
+                h /= np.array([2.0, 4.0])
+                if h.frequencies.tolist() != [0.5, 0.5] or h.errors2.tolist() != [0.25, 0.125]:
+                    raise AssertionError(f"h /= array gave {h.frequencies.tolist()} / {h.errors2.tolist()}")
+            elif how == "array_sub":
+                h = Histogram1D([0, 1, 2], [1, 2])
+                h - np.ones(2)
+            elif how == "negative_factor":
+                h = Histogram1D([0, 1, 2], [1, 2])
+                h * (-1)
             elif how == "negative_nan":
                 Histogram1D([0, 1, 2, 3], [float("nan"), -1, 2])
             else:
